@@ -6,12 +6,14 @@
     NAME <hid> <name hex>                            → ok | err
     REQ  <method hex> <path hex> (<canon>=<value>)*  → h <hid> <long 0|1> <form binds k=v,…> route=<hex> u0=<hex> u1=<hex> | nf
     TREQ … same, full tree matching only
+    IREQ … same as TREQ, through the index-level matcher `Node.matchIdx` (Model/TreeIdx)  → … | panic
     URL <name hex> <k hex> <v hex> …                 → <hex> | panic
 
   The AST on the ADD line (`!` = the text is outside the grammar) is what the route parser
   returns for the text; Model/Parser (C06) ties text and AST.
 -/
 import Flamego.Model.Router
+import Flamego.Model.TreeIdx
 import Flamego.Driver.Common
 namespace Flamego.Driver.Router
 
@@ -132,6 +134,11 @@ def step (E : Engine) (st : St) (l : List String) : St × String :=
   | "TREQ" :: m :: p :: hs =>
     let req : Request := ⟨(hexOf m).toStringLossy, hexOf p, parseReqHdrs hs⟩
     (st, showOutcome st.R (st.R.serveTreeOnly E req))
+  | "IREQ" :: m :: p :: hs =>
+    let req : Request := ⟨(hexOf m).toStringLossy, hexOf p, parseReqHdrs hs⟩
+    match st.R.serveTreeOnlyIdx E req with
+    | .ok o => (st, showOutcome st.R o)
+    | .error _ => (st, "panic")
   | "URL" :: name :: pairs =>
     match st.R.urlPath (hexOf name) (pairs.map hexOf) with
     | some b => (st, b.toHex)
@@ -175,7 +182,7 @@ def queries (_args : List String) (lines : List (List String)) : List String :=
         | some hp =>
           hp.map (fun p => s!"Q C {p.expr.toHex}") ++ go pats (hp.map (fun p => (p.canon, p.expr)) ++ hexprs) rest
       | op :: _ :: p :: hs =>
-        if op == "REQ" || op == "TREQ" || op == "NREQ" then
+        if op == "REQ" || op == "TREQ" || op == "NREQ" || op == "IREQ" then
           let segs := splitSlash (trimLeftSlash (hexOf p))
           let q1 := pats.flatMap fun pat => segs.map fun s => s!"Q F {pat.toHex} {s.toHex}"
           let rh := parseReqHdrs (if op == "NREQ" then hs.drop 2 else hs)
